@@ -133,15 +133,18 @@ func MakeControllerRef(parent *unstructured.Unstructured) *metav1.OwnerReference
 	}
 }
 
-// withControllerRef returns refs with controllerRef added, unless a reference
-// to the same owner is already there.
+// withControllerRef returns refs with controllerRef added. A reference to the
+// same owner that is already there (for example a plain owner reference the hook
+// copied from somewhere) is replaced, so that the owner is listed once and as
+// the controller.
 func withControllerRef(refs []metav1.OwnerReference, controllerRef *metav1.OwnerReference) []metav1.OwnerReference {
+	result := make([]metav1.OwnerReference, 0, len(refs)+1)
 	for _, ref := range refs {
-		if ref.UID == controllerRef.UID {
-			return refs
+		if ref.UID != controllerRef.UID {
+			result = append(result, ref)
 		}
 	}
-	return append(refs, *controllerRef)
+	return append(result, *controllerRef)
 }
 
 type ChildUpdateStrategy interface {
@@ -408,10 +411,7 @@ func updateChildren(client *dynamicclientset.ResourceClient, updateStrategy Chil
 			}
 
 			// We always claim everything we create.
-			controllerRef := MakeControllerRef(parent)
-			ownerRefs := obj.GetOwnerReferences()
-			ownerRefs = append(ownerRefs, *controllerRef)
-			obj.SetOwnerReferences(ownerRefs)
+			obj.SetOwnerReferences(withControllerRef(obj.GetOwnerReferences(), MakeControllerRef(parent)))
 
 			if _, err := client.Namespace(obj.GetNamespace()).Create(context.TODO(), obj, metav1.CreateOptions{}); err != nil {
 				if apierrors.IsAlreadyExists(err) {
